@@ -190,6 +190,15 @@ def gen_cases(rng, tier):
                         continue
                     c = P06._case("srv%d" % j, kind, rel, code, t0, evs)
                     cases.append([c[0], "c08", "srv"] + c[2:]); j += 1
+    # a non-INVITE request whose answers are lost keeps coming on the client's timer E schedule (0.5, 1.5, 3.5, 7.5, then every 4 s, for
+    # 32 s): every copy is the one request - handed to the application once, answered with the one response
+    E_SCHED = [500, 1500, 3500, 7500, 11500, 15500, 19500, 23500, 27500, 31500]
+    for t0 in (3, 137, 2000):
+        for code in (200, 481):
+            for upto in (3500, 7500, 15500, 31500):
+                evs = [(t, "R") for t in E_SCHED if t0 < t <= upto]
+                c = P06._case("srv%d" % j, "ni", 0, code, t0, evs)
+                cases.append([c[0], "c08", "srv"] + c[2:]); j += 1
     return cases
 
 
@@ -380,6 +389,10 @@ def _srv_oracle(case, impl):
         return ["the request received a second, different final response"]
     if not sends:
         return ["the request received no final response"]
+    t0 = int(case[6])
+    again = [(int(m.group(1)), m.group(2)) for m in re.finditer(r"\bL@(\d+):(\w+)", impl) if 0 < int(m.group(1)) < t0 + 32000]
+    if case[3] == "ni" and again:
+        return ["the copy of the request arriving at %d ms (answered at %d ms, inside the 64*T1 the transaction lives) was handed to the layers a second time" % (again[0][0], t0)]
     if case[4] == "1" and len(sends) != 1:
         return ["over a reliable transport the final response went out %d times (at %r ms): the request was received once, it gets exactly one final response" % (len(sends), sends)]
     return []
